@@ -7,7 +7,9 @@
     comparison of every run (tools/props.py run_C05), not by these theorems.                 *)
 From Coq Require Import ZArith Reals List.
 From Rubato.Model Require Import Num Reals Base Async Resamplers.
-From Rubato.Proofs Require Import MalformedP ContentP FastInR FastOutR StreamR StreamOutR.
+From Rubato.Proofs Require Import MalformedP ContentP FastInR FastOutR StreamR StreamOutR FftInOutP FftInR FftStreamP FftInStreamR.
+From Rubato.Model Require Import Fft.
+From Rubato.Gen Require Import SynchroGen.
 Import ListNotations.
 Local Open Scope R_scope.
 
@@ -73,8 +75,59 @@ Theorem C05_fast_variant_independent_R : forall ratio0 maxrel1 maxrel2 d chunk1 
   forall j, (0 <= j < zlen ys1)%Z -> (j < zlen ys2)%Z -> getz 0 ys1 j = getz 0 ys2 j.
 Proof. exact fast_variant_independent_R. Qed.
 
+(** The synchronous resamplers.  The canonical stream of a list of input blocks (each fft_size_in samples) is the
+    overlap-add of the spectral core applied block by block ([canon], Proofs/FftStreamP.v); it mentions neither a chunk
+    size nor a sub-chunk count nor a variant.  FftFixedInOut (any arithmetic) hands out exactly this stream, one block
+    per call; FftFixedIn (ideal arithmetic for its f32 quotient), whatever its chunk size and sub_chunks, hands out the
+    canonical stream of the complete blocks it has consumed and parks the rest: every (chunk_size, sub_chunks) pair
+    that resolves to the same block size yields the same stream.  FftFixedOut: by the family comparison only. *)
+Theorem C05_fft_inout_stream : forall (C : CNum) (S : SNum C) unit_fn (c : nat) calls (s : @fstate C S FftFixedInOut) ov,
+  xio_wf unit_fn s -> nth_error (fs_overlaps s) c = Some ov -> xio_live c calls ->
+  match xio_stream unit_fn c s calls with
+  | Ok (s', blocks, ys) => xio_wf unit_fn s' /\ ys = fst (canon unit_fn (xfout s) blocks ov) /\
+                           nth_error (fs_overlaps s') c = Some (snd (canon unit_fn (xfout s) blocks ov)) /\ fs_ctl s' = fs_ctl s
+  | Err _ => True
+  | Panic _ | UB _ | Diverge => False
+  end.
+Proof. intros C S. exact (@xio_stream_canon C S). Qed.
+
+(** one call of FftFixedIn: the parked frames are exactly the tail of the consumed input that does not fill a block
+    (nothing lost, duplicated or stale), and the frames written extend the canonical stream by the blocks completed *)
+Theorem C05_fft_in_call_R : forall unit_fn (s : @fstate CR SR FftFixedIn) wi wo m (c : nat) X ov0 w,
+  xi_wf unit_fn s -> xi_pre s wi wo m = Ok tt -> xi_holds unit_fn s c X ov0 -> zlen ov0 = ifout s ->
+  nth_error wi c = Some w -> match m with Some mk => nth_error mk c = Some true | None => True end ->
+  let ready := ((isaved s + iC s) / ifin s)%Z in
+  let X' := X ++ firstn (Z.to_nat (iC s)) w in
+  exists s' outs o' j,
+    @xi_pib CR SR unit_fn s wi wo m = Ok (s', (iC s, (ready * ifout s)%Z), outs) /\ xi_wf unit_fn s' /\
+    ifin s' = ifin s /\ ifout s' = ifout s /\ iC s' = iC s /\
+    xi_holds unit_fn s' c X' ov0 /\
+    nth_error outs c = Some o' /\ (0 <= j)%Z /\ zlen X = (j * ifin s + isaved s)%Z /\
+    zlen X' = ((j + ready) * ifin s + isaved s')%Z /\
+    fst (canon unit_fn (ifout s) (chunks (ifin s) (firstn (Z.to_nat ((j + ready) * ifin s)) X')) ov0) =
+    fst (canon unit_fn (ifout s) (chunks (ifin s) (firstn (Z.to_nat (j * ifin s)) X)) ov0) ++ firstn (Z.to_nat (ready * ifout s)) o'.
+Proof. exact xi_call_stream. Qed.
+
+(** the whole stream of a freshly constructed FftFixedIn, any chunk_size and sub_chunks *)
+Theorem C05_fft_in_stream_R : forall unit_fn rate_in rate_out chunk sub nch s (c : nat) calls,
+  (0 < rate_in)%Z -> (0 < rate_out)%Z -> (1 <= chunk)%Z -> (0 <= nch)%Z -> (c < Z.to_nat nch)%nat ->
+  @fft_in_new CR SR rate_in rate_out chunk sub nch = inr (RFftIn s) ->
+  (forall w, zlen w = ifin s -> zlen (unit_fn w) = (2 * ifout s)%Z) ->
+  xi_live c calls ->
+  match xi_stream unit_fn c s [] calls with
+  | Ok (s', X', ys) =>
+      ys = fst (@canon CR SR unit_fn (ifout s) (chunks (ifin s) (firstn (Z.to_nat (zlen X' / ifin s * ifin s)) X'))
+                       (@zeros CR SR (ifout s)))
+  | Err _ => True
+  | Panic _ | UB _ | Diverge => False
+  end.
+Proof. exact xi_fresh_stream. Qed.
+
 Print Assumptions C05_fast_in_call_R.
 Print Assumptions C05_fast_in_stream_R.
 Print Assumptions C05_fast_out_stream_R.
 Print Assumptions C05_fast_chunk_independent_R.
 Print Assumptions C05_fast_variant_independent_R.
+Print Assumptions C05_fft_inout_stream.
+Print Assumptions C05_fft_in_call_R.
+Print Assumptions C05_fft_in_stream_R.
